@@ -112,8 +112,20 @@ func runC13Tolerant(t *fw.T) {
 		wit := func() map[string]any {
 			return map[string]any{"source": rd.Src, "mode": m.String(), "fused": rd.Fuses, "open_blocks": rd.CutBraces, "expected_tree": want}
 		}
-		if !t.Guard("tolerant parse", wit, func() { po = parse(rd.Src, m) }) {
+		byHand := r.IntN(4) == 0
+		if !t.Guard("tolerant parse", wit, func() {
+			if byHand {
+				// the statement loop driven by hand (ParseStatement / NextToken), errors read from Errors(): what tolerant
+				// mode forgives does not depend on who runs the loop
+				po = parseByHand(rd.Src, m)
+			} else {
+				po = parse(rd.Src, m)
+			}
+		}) {
 			continue
+		}
+		if byHand {
+			t.Count("tolerant_parses_with_the_statement_loop_driven_by_hand", 1)
 		}
 		if po.Err != nil || len(po.Errors) > 0 {
 			w := wit()
@@ -439,6 +451,62 @@ func runC13Reconfigure(t *fw.T) {
 	t.Distinct(src + fmt.Sprint(modes))
 }
 
+// strict vs tolerant under a plugin that strips statements: a statement interceptor parses marker statements
+// (`drop_me`) and returns nil for them (the statement loops drop nil results). Programs that strict mode accepts with
+// this plugin must give the identical tree and no errors in tolerant mode - also when more statements follow the
+// stripped one on the same line.
+func runC13Stripping(t *fw.T) {
+	r := t.Rand()
+	g := gen.NewSyn(r, gen.SynOpts{ExprDepth: 1 + r.IntN(3), StmtDepth: 1 + r.IntN(3), MaxStmts: 2 + r.IntN(4)})
+	prog := g.Program()
+	sprinkleDropMarkers(prog, r)
+	rd := gen.Render(prog, r, gen.EmitOpts{Quote: 2}, gen.Layout{Semi: 1, Space: 1, StmtNL: r.Float64()})
+	var outs [4]ParseOut
+	wit := func() map[string]any {
+		return map[string]any{"source": rd.Src, "plugin": "statement interceptor returns nil for `drop_me` statements"}
+	}
+	if !t.Guard("parse with a stripping plugin", wit, func() {
+		for i, m := range AllModes {
+			b := newBuilder(m)
+			b.UseStatementInterceptor(func(p *parser.Parser, next func() ast.Statement) ast.Statement {
+				if p.CurrentToken.Type == token.IDENT && p.CurrentToken.Literal == dropMarker {
+					next()
+					return nil
+				}
+				return next()
+			})
+			p := b.Build(rd.Src)
+			prog, err := p.ParseProgram()
+			outs[i] = ParseOut{Prog: prog, Err: err, Errors: p.Errors()}
+		}
+	}) {
+		return
+	}
+	if outs[0].Err != nil {
+		t.Inconclusive("source not accepted in strict mode (C02's business)", rd.Src)
+		return
+	}
+	t.Count("programs_parsed_with_a_statement_stripping_plugin", 1)
+	for i, m := range AllModes[1:] {
+		if m.Smart && hasLineLeadingBracket(rd.Src) {
+			continue
+		}
+		o := outs[i+1]
+		if o.Err != nil || len(o.Errors) > 0 {
+			w := wit()
+			w["errors"] = o.Errors
+			t.Violate("tolerant-rejects-strict-accepted", m.String()+"/stripping plugin", m.String()+" mode reports an error on a text strict mode accepts (with a plugin that strips statements): "+gen.Describe(rd.Src), w)
+			continue
+		}
+		if !reflect.DeepEqual(outs[0].Prog, o.Prog) {
+			w := wit()
+			w["strict_tree"], w["other_tree"] = norm.S(outs[0].Prog), norm.S(o.Prog)
+			t.Violate("modes-differ-on-accepted-program", m.String()+"/stripping plugin", m.String()+" mode returns a different tree than strict mode on a text strict mode accepts (with a plugin that strips statements): "+gen.Describe(rd.Src), w)
+		}
+	}
+	t.Distinct(rd.Src)
+}
+
 // smart mode and registered operators: a registered infix / postfix operator first on a line is not '(' or '[' and must
 // continue the expression in smart mode exactly as in default mode - whatever id its token type was given. One case =
 // one id: k dummy token types are registered before the operator's, so its id is 1000+k.
@@ -525,6 +593,7 @@ func init() {
 			}},
 			{Name: "tolerant", Quick: 40000, Thorough: 200000, Run: runC13Tolerant},
 			{Name: "smart", Quick: 40000, Thorough: 200000, Run: runC13Smart},
+			{Name: "modes-agree/stripping-plugin", Quick: 12000, Thorough: 60000, Run: runC13Stripping},
 			{Name: "smart/registered-operator-ids", Quick: 600, Thorough: 600, Exhaustive: true, Run: runC13SmartOperatorIds},
 			{Name: "builder-reconfigured-after-build", Quick: 24000, Thorough: 100000, PanicInconclusive: true, Run: runC13Reconfigure},
 			{Name: "smart-inside-expression-observed", Quick: 300, Thorough: 3000, PanicInconclusive: true, Run: func(t *fw.T) {
